@@ -8,6 +8,7 @@ import (
 	"path/filepath"
 
 	"github.com/cube2222/octosql/config"
+	"github.com/cube2222/octosql/verifhook"
 )
 
 var octosqlFileExtensionHandlersFile = func() string {
@@ -52,8 +53,10 @@ func saveFileExtensionHandlers(handlers map[string]string) error {
 	if err != nil {
 		return fmt.Errorf("couldn't json-encode file extension handlers: %w", err)
 	}
+	verifhook.BeforeWrite("extensions.before_write", octosqlFileExtensionHandlersFile, data)
 	if err := os.WriteFile(octosqlFileExtensionHandlersFile, data, 0644); err != nil {
 		return fmt.Errorf("couldn't write file extension handlers to file: %w", err)
 	}
+	verifhook.Point("extensions.after_write")
 	return nil
 }
